@@ -166,7 +166,22 @@ func unescape(value string, handling config.EncodedSlashesHandling) string {
 		return unescaped
 	}
 
-	unescaped, _ := url.PathUnescape(strings.ReplaceAll(value, "%2F", "$$$escaped-slash$$$"))
+	return unescapeExceptEncodedSlashes(value)
+}
 
-	return strings.ReplaceAll(unescaped, "$$$escaped-slash$$$", "%2F")
+// unescapeExceptEncodedSlashes decodes everything but the encoded slashes (%2F). The value is decoded
+// piecewise, so that no text, which may be part of the value itself, is needed as a stand-in for them.
+func unescapeExceptEncodedSlashes(value string) string {
+	parts := strings.Split(value, "%2F")
+
+	for idx, part := range parts {
+		unescaped, err := url.PathUnescape(part)
+		if err != nil {
+			return ""
+		}
+
+		parts[idx] = unescaped
+	}
+
+	return strings.Join(parts, "%2F")
 }
